@@ -370,6 +370,23 @@ class Interp:
                 raise Unknown("core::panicking: attempt to %s with overflow" % what)
         return r
 
+    def user_iter_items(self, v, depth):
+        """the items of an iterator type of the analysed crates, by walking its own `next` (a copy is advanced); None if it has none"""
+        nb = [b_ for b_ in self.facts.by_name.get("next", ()) if (b_.get("impl_trait") or "").endswith("iterator::Iterator") and short((b_.get("self_ty") or "").split("<")[0]) == v.adt and "thir" in b_]
+        if len(nb) != 1:
+            return None
+        import copy as _c
+        holder = {"it": _c.deepcopy(v)}
+        out = []
+        for _ in range(self.max_loop + 1):
+            r_ = self.apply(nb[0], [Ref(holder, "it")], depth + 1)
+            if isinstance(r_, Enum) and r_.variant == "None":
+                return out
+            if not (isinstance(r_, Enum) and r_.variant == "Some"):
+                raise Unknown("next of %s gives %r" % (v.adt, r_))
+            out.append(r_.fields["0"])
+        raise Unknown("iterator %s too long for a table" % v.adt)
+
     def arg_ty(self, a):
         while isinstance(a, dict) and a.get("k") in ("Scope", "Use", "Coerce") and isinstance(a.get("e"), dict) and not a.get("ty"):
             a = a["e"]
@@ -794,6 +811,8 @@ class Interp:
         elif isinstance(itv, Ref) and isinstance(itv.get(), (list, HSet, HMap)):
             g = itv.get()
             seq = list(g) if isinstance(g, list) else (self.hash_order(list(g.items)) if isinstance(g, HSet) else self.hash_order([(k, v) for k, v in g.items()]))
+        elif isinstance(itv, Enum) and self.user_iter_items(itv, depth) is not None:
+            seq = self.user_iter_items(itv, depth)
         else:
             raise Unknown("for over %r" % (itv,))
         if len(seq) > self.max_loop:
@@ -1013,6 +1032,22 @@ class Interp:
                     v.fields["start"] += 1          # the range is its own iterator
                     return Enum("Option", "Some", {"0": v.fields["start"] - 1})
                 v = list(range(v.fields["start"], hi_))
+            if isinstance(v, Enum) and m != "next":
+                # an iterator type of the analysed crates (`impl Iterator for FunctionIdIterator`): its own `next` is walked until it is exhausted
+                nb = [b_ for b_ in self.facts.by_name.get("next", ()) if (b_.get("impl_trait") or "").endswith("iterator::Iterator") and short((b_.get("self_ty") or "").split("<")[0]) == v.adt and "thir" in b_]
+                if len(nb) == 1:
+                    items_ = []
+                    holder = {"it": v}
+                    for _ in range(self.max_loop + 1):
+                        r_ = self.apply(nb[0], [Ref(holder, "it")], depth + 1)
+                        if isinstance(r_, Enum) and r_.variant == "None":
+                            break
+                        if not (isinstance(r_, Enum) and r_.variant == "Some"):
+                            raise Unknown("next of %s gives %r" % (v.adt, r_))
+                        items_.append(r_.fields["0"])
+                    else:
+                        raise Unknown("iterator %s too long for a table" % v.adt)
+                    v = items_
             if not isinstance(v, (list, tuple)):
                 raise Unknown("iterator method %s on %r" % (m, v))
             raw = v
@@ -2103,6 +2138,41 @@ class Interp:
                     return Enum("Result", "Ok", {"0": lo_})
                 return Enum("Result", "Err", {"0": lo_ + (1 if base[lo_] < x else 0)})
             raise Unknown("binary_search on %r" % (base,))
+        if gen in ("core::slice::<impl [T]>::binary_search_by", "core::slice::<impl [T]>::binary_search_by_key"):
+            base = self.ev(args[0], env, depth)
+            base = base.get() if isinstance(base, Ref) else base
+            if not isinstance(base, (list, tuple)):
+                raise Unknown("binary_search_by on %r" % (base,))
+            if gen.endswith("_by_key"):
+                key_ = self.ev(args[1], env, depth)
+                key_ = key_.get() if isinstance(key_, Ref) else key_
+                kf = self.ev(args[2], env, depth)
+
+                def order(y):
+                    ky = self.call_callable(kf, [y], depth)
+                    if isinstance(ky, (int, str)) and isinstance(key_, type(ky)):
+                        return "Less" if ky < key_ else ("Greater" if ky > key_ else "Equal")
+                    raise Unknown("binary_search_by_key key %r" % (ky,))
+            else:
+                cf = self.ev(args[1], env, depth)
+
+                def order(y):
+                    o_ = self.call_callable(cf, [y], depth)
+                    if isinstance(o_, Enum) and o_.variant in ("Less", "Equal", "Greater"):
+                        return o_.variant
+                    raise Unknown("binary_search_by comparator result %r" % (o_,))
+            size, lo_ = len(base), 0
+            if size == 0:
+                return Enum("Result", "Err", {"0": 0})
+            while size > 1:         # std's algorithm
+                half = size // 2
+                mid = lo_ + half
+                lo_ = lo_ if order(base[mid]) == "Greater" else mid
+                size -= half
+            c_ = order(base[lo_])
+            if c_ == "Equal":
+                return Enum("Result", "Ok", {"0": lo_})
+            return Enum("Result", "Err", {"0": lo_ + (1 if c_ == "Less" else 0)})
         if gen in ("core::slice::<impl [T]>::windows", "core::slice::<impl [T]>::chunks", "core::slice::<impl [T]>::concat", "core::slice::<impl [T]>::split_last",
                    "alloc::slice::<impl [T]>::concat"):
             base = self.ev(args[0], env, depth)
